@@ -1,1 +1,429 @@
-//! Helpers of group 'session' (see GUIDE.md).
+//! Group 'session' helpers (C32, C33, C34, C36, C49): a real `IdmServer` world with a
+//! harness-owned clock, account builders, login / token / delayed-action drivers.
+//!
+//! Everything here only *drives* the server. Oracles live in the checks.
+use crate::srv::{self, ct};
+use kanidm_lib_crypto::CryptoPolicy;
+use kanidmd_lib::constants::*;
+use kanidmd_lib::credential::Credential;
+use kanidmd_lib::idm::authentication::{AuthCredential, AuthState, ReauthRequest};
+use kanidmd_lib::idm::delayed::DelayedAction;
+use kanidmd_lib::idm::event::{AuthEvent, AuthEventStep, AuthEventStepCred, AuthEventStepInit, AuthEventStepMech, AuthResult};
+use kanidmd_lib::idm::server::{IdmServerProxyWriteTransaction, IdmServerTransaction};
+use kanidmd_lib::idm::serviceaccount::{DestroyApiTokenEvent, GenerateApiTokenEvent};
+use kanidmd_lib::modify::{Modify, ModifyList};
+use kanidmd_lib::entry::EntrySealedCommitted;
+use kanidmd_lib::prelude::*;
+use kanidmd_lib::value::Value;
+use kanidmd_lib::verif_hooks::ident;
+use kanidmd_lib::verif_hooks::session as hk;
+use kanidm_proto::v1::{AuthAllowed, AuthIssueSession, AuthMech};
+use std::str::FromStr;
+use std::sync::Arc;
+use time::OffsetDateTime;
+
+pub use hk::compact_jwt::JwsCompact;
+
+pub const PW: &str = "verif-primary-pw-9fQ";
+pub const PW2: &str = "verif-second-pw-3kZ";
+pub const UNIX_PW: &str = "verif-unix-pw-71xB";
+pub const TOTP_SECRET: [u8; 20] = *b"verif-totp-secret-00";
+pub const TOTP_STEP: u64 = 30;
+
+pub fn odt(off: u64) -> OffsetDateTime {
+    OffsetDateTime::UNIX_EPOCH + ct(off)
+}
+
+pub struct World {
+    pub idms: IdmServer,
+    pub delayed: IdmServerDelayed,
+    pub audit: IdmServerAudit,
+}
+
+#[derive(Debug, Clone, PartialEq, Eq)]
+pub enum Login {
+    /// the issued bearer token (JWS compact string)
+    Success(String),
+    Denied(String),
+    /// the flow could not proceed (no such mech, server error)
+    Error(String),
+}
+impl Login {
+    pub fn token(&self) -> Option<&str> {
+        match self {
+            Login::Success(t) => Some(t),
+            _ => None,
+        }
+    }
+}
+
+pub fn uuid_filter(u: Uuid) -> Filter<FilterInvalid> {
+    Filter::new_ignore_hidden(f_eq(Attribute::Uuid, PartialValue::Uuid(u)))
+}
+
+pub fn parse_jws(s: &str) -> Option<JwsCompact> {
+    JwsCompact::from_str(s).ok()
+}
+
+#[derive(Debug, Clone, Copy, PartialEq, Eq)]
+pub enum Mech {
+    Password,
+    PasswordTotp,
+    Anonymous,
+}
+
+impl World {
+    pub async fn new() -> World {
+        let qs = srv::new_qs().await;
+        let (idms, delayed, audit) = srv::new_idms(qs).await;
+        World { idms, delayed, audit }
+    }
+
+    /// Run `f` in one IDM write transaction at virtual time `off`; commit when it returns Ok.
+    pub async fn write<R>(
+        &self,
+        off: u64,
+        f: impl for<'a, 'b> FnOnce(&'a mut IdmServerProxyWriteTransaction<'b>) -> Result<R, OperationError>,
+    ) -> Result<R, OperationError> {
+        let mut w = self.idms.proxy_write(ct(off)).await?;
+        let r = f(&mut w)?;
+        w.commit()?;
+        Ok(r)
+    }
+
+    pub async fn entry(&self, u: Uuid) -> Result<Arc<EntrySealedCommitted>, OperationError> {
+        let mut r = self.idms.proxy_read().await?;
+        r.qs_read.internal_search_uuid(u)
+    }
+
+    pub async fn modify(&self, off: u64, u: Uuid, mods: Vec<Modify>) -> Result<(), OperationError> {
+        self.write(off, |w| w.qs_write.internal_modify(&uuid_filter(u), &ModifyList::new_list(mods)))
+            .await
+    }
+
+    /// Person with an optional primary password credential. Returns the credential id.
+    pub async fn create_person(&self, off: u64, uuid: Uuid, name: &str, mech: Option<Mech>, pw: &str) -> Result<Option<Uuid>, OperationError> {
+        let e = crate::pop::person(uuid, name);
+        let cred = match mech {
+            None => None,
+            Some(Mech::Password) => Some(Credential::new_password_only(&CryptoPolicy::danger_test_minimum(), pw, odt(off))?),
+            Some(Mech::Anonymous) => None,
+            Some(Mech::PasswordTotp) => Some(hk::credential_password_totp(
+                &CryptoPolicy::danger_test_minimum(),
+                pw,
+                TOTP_SECRET.to_vec(),
+                TOTP_STEP,
+                odt(off),
+            )?),
+        };
+        let cid = cred.as_ref().map(hk::credential_uuid);
+        self.write(off, move |w| {
+            w.qs_write.internal_create(vec![e])?;
+            if let Some(c) = cred {
+                w.qs_write.internal_modify(
+                    &uuid_filter(uuid),
+                    &ModifyList::new_list(vec![Modify::Present(Attribute::PrimaryCredential, Value::new_credential("primary", c))]),
+                )?;
+            }
+            Ok(())
+        })
+        .await?;
+        Ok(cid)
+    }
+
+    /// Replace the primary credential by a fresh password credential; returns the new cred id.
+    pub async fn set_primary_password(&self, off: u64, uuid: Uuid, pw: &str) -> Result<Uuid, OperationError> {
+        let c = Credential::new_password_only(&CryptoPolicy::danger_test_minimum(), pw, odt(off))?;
+        let id = hk::credential_uuid(&c);
+        self.modify(
+            off,
+            uuid,
+            vec![
+                Modify::Purged(Attribute::PrimaryCredential),
+                Modify::Present(Attribute::PrimaryCredential, Value::new_credential("primary", c)),
+            ],
+        )
+        .await?;
+        Ok(id)
+    }
+
+    pub async fn create_service(&self, off: u64, uuid: Uuid, name: &str) -> Result<(), OperationError> {
+        let e = crate::pop::service(uuid, name);
+        self.write(off, move |w| w.qs_write.internal_create(vec![e])).await
+    }
+
+    pub async fn add_member(&self, off: u64, group: Uuid, member: Uuid) -> Result<(), OperationError> {
+        self.modify(off, group, vec![Modify::Present(Attribute::Member, Value::Refer(member))]).await
+    }
+
+    /// Make the account POSIX with a unix password.
+    pub async fn enable_posix(&self, off: u64, uuid: Uuid, gid: u32, unix_pw: &str) -> Result<(), OperationError> {
+        let c = Credential::new_password_only(&CryptoPolicy::danger_test_minimum(), unix_pw, odt(off))?;
+        self.modify(
+            off,
+            uuid,
+            vec![
+                Modify::Present(Attribute::Class, EntryClass::PosixAccount.into()),
+                Modify::Present(Attribute::GidNumber, Value::new_uint32(gid)),
+                Modify::Present(Attribute::UnixPassword, Value::new_credential("unix", c)),
+            ],
+        )
+        .await
+    }
+
+    /// Set / clear the validity window (seconds after the world epoch).
+    pub async fn set_window(&self, off: u64, uuid: Uuid, valid_from: Option<u64>, expire: Option<u64>) -> Result<(), OperationError> {
+        let mut mods = vec![Modify::Purged(Attribute::AccountValidFrom), Modify::Purged(Attribute::AccountExpire)];
+        if let Some(v) = valid_from {
+            mods.push(Modify::Present(Attribute::AccountValidFrom, Value::new_datetime_epoch(ct(v))));
+        }
+        if let Some(v) = expire {
+            mods.push(Modify::Present(Attribute::AccountExpire, Value::new_datetime_epoch(ct(v))));
+        }
+        self.modify(off, uuid, mods).await
+    }
+
+    /// One interactive login, all steps at the same virtual instant.
+    pub async fn login(&self, name: &str, mech: Mech, pw: &str, privileged: bool, off: u64) -> Login {
+        let now = ct(off);
+        let mut a = match self.idms.auth().await {
+            Ok(a) => a,
+            Err(e) => return Login::Error(format!("auth txn {e:?}")),
+        };
+        let init = AuthEvent {
+            ident: None,
+            step: AuthEventStep::Init(AuthEventStepInit {
+                username: name.to_string(),
+                issue: AuthIssueSession::Token,
+                privileged,
+            }),
+        };
+        let AuthResult { sessionid, state } = match a.auth(&init, now, hk::client_auth_none()).await {
+            Ok(r) => r,
+            Err(e) => return Login::Error(format!("init {e:?}")),
+        };
+        match state {
+            AuthState::Choose(_) => {}
+            AuthState::Denied(r) => return Login::Denied(r),
+            s => return Login::Error(format!("init -> {s:?}")),
+        }
+        let m = match mech {
+            Mech::Password => AuthMech::Password,
+            Mech::PasswordTotp => AuthMech::PasswordTotp,
+            Mech::Anonymous => AuthMech::Anonymous,
+        };
+        let begin = AuthEvent {
+            ident: None,
+            step: AuthEventStep::Begin(AuthEventStepMech { sessionid, mech: m }),
+        };
+        let state = match a.auth(&begin, now, hk::client_auth_none()).await {
+            Ok(r) => r.state,
+            Err(e) => return Login::Error(format!("begin {e:?}")),
+        };
+        let r = self.finish_creds(&mut a, sessionid, state, pw, off).await;
+        let _ = a.commit();
+        r
+    }
+
+    async fn finish_creds(
+        &self,
+        a: &mut kanidmd_lib::idm::server::IdmServerAuthTransaction<'_>,
+        sessionid: Uuid,
+        mut state: AuthState,
+        pw: &str,
+        off: u64,
+    ) -> Login {
+        let now = ct(off);
+        for _ in 0..3 {
+            let cred = match &state {
+                AuthState::Continue(allowed) => {
+                    if allowed.iter().any(|x| matches!(x, AuthAllowed::Totp)) {
+                        let totp = kanidmd_lib::credential::totp::Totp::new(
+                            TOTP_SECRET.to_vec(),
+                            TOTP_STEP,
+                            kanidmd_lib::credential::totp::TotpAlgo::Sha256,
+                            kanidmd_lib::credential::totp::TotpDigits::Six,
+                        );
+                        match totp.do_totp_duration_from_epoch(&now) {
+                            Ok(c) => AuthCredential::Totp(c),
+                            Err(e) => return Login::Error(format!("totp {e:?}")),
+                        }
+                    } else if allowed.iter().any(|x| matches!(x, AuthAllowed::Anonymous)) {
+                        AuthCredential::Anonymous
+                    } else if allowed.iter().any(|x| matches!(x, AuthAllowed::Password)) {
+                        AuthCredential::Password(pw.to_string())
+                    } else {
+                        return Login::Error(format!("unsupported continue {allowed:?}"));
+                    }
+                }
+                AuthState::Denied(r) => return Login::Denied(r.clone()),
+                AuthState::Success(t, _) => return Login::Success(t.to_string()),
+                s => return Login::Error(format!("unexpected state {s:?}")),
+            };
+            let ev = AuthEvent {
+                ident: None,
+                step: AuthEventStep::Cred(AuthEventStepCred { sessionid, cred }),
+            };
+            state = match a.auth(&ev, now, hk::client_auth_none()).await {
+                Ok(r) => r.state,
+                Err(e) => return Login::Error(format!("cred {e:?}")),
+            };
+        }
+        match state {
+            AuthState::Denied(r) => Login::Denied(r),
+            AuthState::Success(t, _) => Login::Success(t.to_string()),
+            s => Login::Error(format!("unfinished {s:?}")),
+        }
+    }
+
+    /// Re-authentication of the session behind `ident` (all steps at `off`).
+    pub async fn reauth(&self, ident: Identity, pw: &str, grant_rw: bool, off: u64) -> Login {
+        let now = ct(off);
+        let mut a = match self.idms.auth().await {
+            Ok(a) => a,
+            Err(e) => return Login::Error(format!("auth txn {e:?}")),
+        };
+        let req = if grant_rw { ReauthRequest::GrantReadWrite } else { ReauthRequest::VerifyCredentials };
+        let AuthResult { sessionid, state } = match a.reauth_init(ident, AuthIssueSession::Token, now, hk::client_auth_none(), req).await {
+            Ok(r) => r,
+            Err(e) => return Login::Error(format!("reauth_init {e:?}")),
+        };
+        let r = self.finish_creds(&mut a, sessionid, state, pw, off).await;
+        let _ = a.commit();
+        r
+    }
+
+    /// Process queued delayed actions (session records, upgrades) at `off`. Returns how many.
+    pub async fn process_delayed(&mut self, off: u64) -> usize {
+        let mut n = 0;
+        while let Some(da) = hk::delayed_try_recv(&mut self.delayed) {
+            let _ = hk::delayed_action(&self.idms, ct(off), da).await;
+            n += 1;
+        }
+        n
+    }
+
+    /// Drop queued delayed actions without processing them. Returns the dropped session records.
+    pub fn drop_delayed(&mut self) -> Vec<DelayedAction> {
+        let mut v = Vec::new();
+        while let Some(da) = hk::delayed_try_recv(&mut self.delayed) {
+            v.push(da);
+        }
+        v
+    }
+
+    /// Present a bearer token at `off` through the front-door validation.
+    pub async fn token_ident(&self, token: &str, off: u64) -> Result<Identity, OperationError> {
+        let Some(jws) = parse_jws(token) else {
+            return Err(OperationError::NotAuthenticated);
+        };
+        let mut r = self.idms.proxy_read().await?;
+        r.validate_client_auth_info_to_ident(hk::client_auth_bearer(jws), ct(off))
+    }
+
+    pub async fn api_token(&self, off: u64, target: Uuid, label: &str, expiry: Option<u64>, read_write: bool, compact: bool) -> Result<String, OperationError> {
+        let ev = GenerateApiTokenEvent {
+            ident: ident::internal(),
+            target,
+            label: label.to_string(),
+            expiry: expiry.map(odt),
+            read_write,
+            compact,
+        };
+        self.write(off, move |w| w.service_account_generate_api_token(&ev, ct(off)))
+            .await
+            .map(|t| t.to_string())
+    }
+
+    pub async fn destroy_api_token(&self, off: u64, target: Uuid, token_id: Uuid) -> Result<(), OperationError> {
+        let ev = DestroyApiTokenEvent {
+            ident: ident::internal(),
+            target,
+            token_id,
+        };
+        self.write(off, move |w| w.service_account_destroy_api_token(&ev)).await
+    }
+
+    /// Identity of a stored account as the server would build it for a read-only request.
+    pub async fn ident_of(&self, u: Uuid) -> Result<Identity, OperationError> {
+        Ok(ident::user_readonly(self.entry(u).await?))
+    }
+}
+
+// ---------------------------------------------------------------------------------------------
+// Token inspection without the server: split the compact form, decode base64url, read the JSON.
+
+pub fn b64url_decode(s: &str) -> Option<Vec<u8>> {
+    let mut out = Vec::with_capacity(s.len() * 3 / 4);
+    let mut acc: u32 = 0;
+    let mut bits = 0;
+    for c in s.bytes() {
+        let v = match c {
+            b'A'..=b'Z' => c - b'A',
+            b'a'..=b'z' => c - b'a' + 26,
+            b'0'..=b'9' => c - b'0' + 52,
+            b'-' => 62,
+            b'_' => 63,
+            b'=' => continue,
+            _ => return None,
+        } as u32;
+        acc = (acc << 6) | v;
+        bits += 6;
+        if bits >= 8 {
+            bits -= 8;
+            out.push(((acc >> bits) & 0xff) as u8);
+        }
+    }
+    Some(out)
+}
+
+#[derive(Debug, Clone)]
+pub struct TokenParts {
+    pub kid: Option<String>,
+    pub alg: Option<String>,
+    pub payload: Vec<u8>,
+}
+
+pub fn token_parts(tok: &str) -> Option<TokenParts> {
+    let mut it = tok.split('.');
+    let (h, p, _s) = (it.next()?, it.next()?, it.next()?);
+    let hv: serde_json::Value = serde_json::from_slice(&b64url_decode(h)?).ok()?;
+    Some(TokenParts {
+        kid: hv.get("kid").and_then(|k| k.as_str()).map(|s| s.to_string()),
+        alg: hv.get("alg").and_then(|k| k.as_str()).map(|s| s.to_string()),
+        payload: b64url_decode(p)?,
+    })
+}
+
+fn flip_mid(seg: &str) -> String {
+    let mut b: Vec<u8> = seg.bytes().collect();
+    if b.is_empty() {
+        return "A".into();
+    }
+    let i = b.len() / 2;
+    b[i] = if b[i] == b'A' { b'B' } else { b'A' };
+    String::from_utf8(b).unwrap_or_default()
+}
+
+/// Forged variants of a compact token: none of them carries a valid signature of the original key
+/// (middle characters are flipped, so no change hides in base64 padding bits).
+pub fn mutants(tok: &str, other: Option<&str>) -> Vec<(&'static str, String)> {
+    let parts: Vec<&str> = tok.split('.').collect();
+    if parts.len() != 3 {
+        return Vec::new();
+    }
+    let (h, p, s) = (parts[0], parts[1], parts[2]);
+    let mut v = vec![
+        ("signature-flip", format!("{h}.{p}.{}", flip_mid(s))),
+        ("payload-flip", format!("{h}.{}.{s}", flip_mid(p))),
+        ("truncated", format!("{h}.{p}.{}", &s[..s.len().saturating_sub(8)])),
+        ("no-signature", format!("{h}.{p}.")),
+    ];
+    if let Some(o) = other {
+        let op: Vec<&str> = o.split('.').collect();
+        if op.len() == 3 && op[2] != s {
+            v.push(("foreign-signature", format!("{h}.{p}.{}", op[2])));
+        }
+    }
+    v
+}
